@@ -133,9 +133,16 @@ impl BricksDomain {
                         else if current_brick.get_sequence() == next_brick.get_sequence() {
                             let merged_brick =
                                 current_brick.merge_bricks_with_equal_content(next_brick);
-                            normalized[index] = BrickDomain::Value(merged_brick);
-                            normalized.remove(index + 1);
-                            break;
+                            // Only merge if the merged brick does not get broken up again by step 5.
+                            // Else the normalization would alternate forever between
+                            // e.g. [S]^{1,1}[S]^{0,k} (step 5) and [S]^{1,k+1} (step 4).
+                            if merged_brick.get_min() == 0
+                                || merged_brick.get_min() == merged_brick.get_max()
+                            {
+                                normalized[index] = BrickDomain::Value(merged_brick);
+                                normalized.remove(index + 1);
+                                break;
+                            }
                         }
                     }
                 }
